@@ -294,7 +294,7 @@ def deOf (mask : Nat) (ty : String) (j : Json) : Option String :=
 structure DState where
   mask : Nat
 
-def dstep (s : DState) (toks : List String) : DState × String :=
+def dstep0 (s : DState) (toks : List String) : DState × String :=
   match toks with
   | ["reset", m] =>
     match m.toNat? with
@@ -318,6 +318,313 @@ def dstep (s : DState) (toks : List String) : DState × String :=
         | some r => "ok " ++ r
         | none => "bad-op")
   | _ => (s, "bad-op")
+
+
+/-! ### arm tags -/
+
+def armsStruct (pref : String) (n : Nat) (j : Json) : List String :=
+  match j with
+  | .obj _ => [pref ++ "-obj"]
+  | .arr l => [if l.length = n then pref ++ "-arr-exact" else pref ++ "-arr-wronglen"]
+  | .null => [pref ++ "-null"]
+  | _ => [pref ++ "-notstruct"]
+
+def armsIntBody (name : String) (signed : Bool) (lo hi : Int) (body : Option Json) : List String :=
+  match body with
+  | none => [name ++ "-body-missing"]
+  | some (.num (.int v)) =>
+    if (signed ∧ (v < -9223372036854775808 ∨ v > 9223372036854775807)) ∨ (¬ signed ∧ (v < 0 ∨ v > 18446744073709551615)) then
+      [if v < 0 then name ++ "-neg-not-u64" else name ++ "-beyond-64bit"]
+    else if v < lo then [if v = lo - 1 then name ++ "-min-1" else name ++ "-below-min"]
+    else if v > hi then [if v = hi + 1 then name ++ "-max+1" else name ++ "-above-max"]
+    else if v = lo then [name ++ "-at-min"] else if v = hi then [name ++ "-at-max"] else [name ++ "-inside"]
+  | some (.num (.flt _)) => [name ++ "-float"]
+  | some _ => [name ++ "-nonnumber"]
+
+def armsFloatBody (cfg : Cfg) (isF32 : Bool) (body : Option Json) : List String :=
+  let n := if isF32 then "f32" else "f64"
+  match body with
+  | none => [n ++ "-body-missing"]
+  | some (.str s) =>
+    [if s = ['I', 'n', 'f', 'i', 'n', 'i', 't', 'y'] then n ++ "-str-inf"
+     else if s = ['-', 'I', 'n', 'f', 'i', 'n', 'i', 't', 'y'] then n ++ "-str-neginf"
+     else if s = ['N', 'a', 'N'] then n ++ "-str-nan" else n ++ "-str-other"]
+  | some j =>
+    match asF64 j with
+    | none => [n ++ "-notnumber"]
+    | some b =>
+      (match j with
+       | .num (.int _) => [n ++ "-from-int"]
+       | _ => [n ++ "-from-float"]) ++
+      (if isF32 then
+        match classify64 b with
+        | .fin _ m e =>
+          (if leScaled m e (2 ^ 24 - 1) 104 ∧ leScaled (2 ^ 24 - 1) 104 m e then ["f32-exactly-max"]
+           else if !inF32Range m e then
+             [if (floatBody cfg body).isSome then "f32-above-max-rounds-to-max" else "f32-overflow"]
+           else if narrow b < 2 ^ 23 ∨ (narrow b ≥ 2 ^ 31 ∧ narrow b < 2 ^ 31 + 2 ^ 23) then
+             [if m = 0 then "f32-zero" else "f32-subnormal-or-underflow"]
+           else [match classify32 (narrow b) with
+                 | .fin neg m2 e2 => if toFloatBits 53 11 neg m2 e2 = b then "f32-exact" else "f32-rounded"
+                 | _ => "f32-rounded"])
+        | _ => []
+       else [])
+
+def armsStrNum (name : String) (signed : Bool) (body : Option Json) : List String :=
+  match body with
+  | none => [name ++ "-body-missing"]
+  | some (.str s) =>
+    if signed then
+      match parseI64 s with
+      | some v => [if v = -9223372036854775808 then name ++ "-min" else if v = 9223372036854775807 then name ++ "-max"
+                   else if s.head? = some '+' then name ++ "-plus" else if v < 0 then name ++ "-neg" else name ++ "-ok"]
+      | none => [if s.head? = some '-' then name ++ "-err-neg" else name ++ "-err"]
+    else
+      match parseUnsigned 18446744073709551615 s with
+      | some v => [if v = 18446744073709551615 then name ++ "-max" else if s.head? = some '+' then name ++ "-plus" else name ++ "-ok"]
+      | none => [if !s.isEmpty ∧ (stripPlus s).all isDigit then name ++ "-overflow" else name ++ "-err"]
+  | some _ => [name ++ "-notstring"]
+
+def armsDt (s : List Char) : List String :=
+  match parseDtJ s with
+  | none => ["dtj-err"]
+  | some d =>
+    (if d = ⟨0, 0⟩ then ["dtj-at-or-below-epoch"] else if d = ⟨endSecs, 0⟩ then ["dtj-at-or-above-end"] else ["dtj-inside"]) ++
+    (if d.nanos ≥ 1000000000 then ["dtj-leap-second"] else []) ++
+    (match s.drop 10 with
+     | 'T' :: _ => ["dtj-sep-T"] | 't' :: _ => ["dtj-sep-t"] | ' ' :: _ => ["dtj-sep-space"] | _ => []) ++
+    (match s.drop 19 with
+     | '.' :: r => [if (spanP isDigit r).1.length > 9 then "dtj-frac-gt9" else if (spanP isDigit r).1.length = 9 then "dtj-frac-9" else "dtj-frac-1to8"]
+     | _ => ["dtj-frac-none"]) ++
+    (match s.getLast? with
+     | some 'Z' => ["dtj-zone-Z"] | some 'z' => ["dtj-zone-z"]
+     | _ => [if s.contains (Char.ofNat 0x2212) then "dtj-zone-u2212" else if (s.drop 19).contains '+' then "dtj-zone-plus" else "dtj-zone-minus"])
+
+def armsDtJ (pref : String) (j : Option Json) : List String :=
+  match j with
+  | none => [pref ++ "-absent"]
+  | some (.str s) => armsDt s
+  | some _ => [pref ++ "-notstring"]
+
+def armsIdentJ (t : Option Json) (id : Option Json) : List String :=
+  let tt : Option Nat := match optPresent t with
+    | none => some 0
+    | some j => uintJ 4294967295 j
+  match tt, id with
+  | none, _ => ["nj-type-invalid"]
+  | _, none => ["nj-id-missing"]
+  | some 0, some id =>
+    (if (optPresent t).isSome then ["nj-type-0-explicit"] else ["nj-type-absent"]) ++
+    [match asU64 id with
+     | some v => if v > 4294967295 then "nj-numeric-truncated" else if v = 4294967295 then "nj-numeric-max" else "nj-numeric"
+     | none => "nj-numeric-notu64"]
+  | some 1, some id => [match asStr id with | some s => if s.isEmpty then "nj-string-empty" else "nj-string" | none => "nj-string-nostr"]
+  | some 2, some id => [match asStr id with
+     | some s => if s.isEmpty then "nj-guid-empty" else if (parseGuid (utf8 s)).isSome then "nj-guid" else "nj-guid-bad"
+     | none => "nj-guid-nostr"]
+  | some 3, some id => [match asStr id with
+     | some s => if s.isEmpty then "nj-bytes-empty" else if (b64Decode (utf8 s)).isSome then "nj-bytes" else "nj-bytes-bad"
+     | none => "nj-bytes-nostr"]
+  | some _, _ => ["nj-type-other"]
+
+def armsIndex (pref : String) (max : Nat) (o : Option Json) : List String :=
+  match optPresent o with
+  | none => [pref ++ "-absent"]
+  | some j =>
+    match asU64 j with
+    | some v => [if v > max then (if v = max + 1 then pref ++ "-max+1" else pref ++ "-overflow") else if v = max then pref ++ "-max"
+                 else if v = 0 then pref ++ "-zero-explicit" else pref ++ "-num"]
+    | none => [match j with | .str _ => pref ++ "-string" | _ => pref ++ "-notnum"]
+
+def armsNodeIdJ (j : Json) : List String :=
+  armsStruct "nj" 3 j ++
+  (match structFields [kType, kId, kNamespace] j with
+   | some [t, id, ns] => armsIdentJ t id ++ armsIndex "nj-ns" 65535 ns
+   | _ => [])
+
+def armsExpJ (j : Json) : List String :=
+  armsStruct "xj" 4 j ++
+  (match structFields [kType, kId, kNamespace, kServerUri] j with
+   | some [t, id, ns, su] => armsIdentJ t id ++ armsIndex "xj-ns" 65535 ns ++ armsIndex "xj-svr" 4294967295 su
+   | _ => [])
+
+def armsUaStr (pref : String) (o : Option Json) : List String :=
+  match o with
+  | none => [pref ++ "-absent"]
+  | some .null => [pref ++ "-null"]
+  | some (.str s) => [if s.isEmpty then pref ++ "-empty" else pref]
+  | some _ => [pref ++ "-notstring"]
+
+def armsStatus (j : Json) : List String :=
+  match j with
+  | .num (.int z) => [if z < 0 then "sc-negative" else if z > 4294967295 then (if z = 4294967296 then "sc-max+1" else "sc-overflow")
+                      else if z = 4294967295 then "sc-max" else if z = 0 then "sc-good" else "sc-ok"]
+  | .num (.flt _) => ["sc-float"]
+  | _ => ["sc-notnumber"]
+
+mutual
+  def armsVar (cfg : Cfg) : Nat → Json → List String
+    | 0, _ => ["var-fuel"]
+    | _ + 1, .null => ["var-null"]
+    | fuel + 1, j =>
+      armsStruct "var" 3 j ++
+      (match structFields [kType, kBody, kDimensions] j with
+       | some [t, body, dims] =>
+         match t.bind (uintJ 4294967295) with
+         | none => [if t.isNone then "var-type-missing" else "var-type-invalid"]
+         | some t =>
+           let body := optPresent body
+           (if (optPresent dims).isSome then ["var-dims-present"] else
+            s!"vt-{if t ≤ 25 then t else 26}" ::
+            (match t with
+             | 0 => [if body.isSome then "empty-with-body" else "empty-ok"]
+             | 1 => [match body with | some (.bool _) => "bool-ok" | none => "bool-missing" | _ => "bool-notbool"]
+             | 2 => armsIntBody "i8" true (-128) 127 body
+             | 3 => armsIntBody "u8" false 0 255 body
+             | 4 => armsIntBody "i16" true (-32768) 32767 body
+             | 5 => armsIntBody "u16" false 0 65535 body
+             | 6 => armsIntBody "i32" true (-2147483648) 2147483647 body
+             | 7 => armsIntBody "u32" false 0 4294967295 body
+             | 8 => armsStrNum "i64" true body
+             | 9 => armsStrNum "u64" false body
+             | 10 => armsFloatBody cfg true body
+             | 11 => armsFloatBody cfg false body
+             | 12 => armsUaStr "vstr" body
+             | 13 => armsDtJ "vdt" body
+             | 14 => [match body with
+                      | some (.str s) => if (parseGuid (utf8 s)).isSome then "vguid-ok" else "vguid-bad"
+                      | none => "vguid-missing" | _ => "vguid-notstring"]
+             | 15 => [match body with
+                      | none => "vbs-null" | some (.str s) => if (b64Decode (utf8 s)).isSome then (if s.isEmpty then "vbs-empty" else "vbs-ok") else "vbs-bad"
+                      | _ => "vbs-notstring"]
+             | 16 => armsUaStr "vxml" body
+             | 17 => (match body with | none => ["vnid-missing"] | some b => armsNodeIdJ b)
+             | 18 => (match body with | none => ["vxnid-missing"] | some b => armsExpJ b)
+             | 19 => (match body with | none => ["vsc-missing"] | some b => armsStatus b)
+             | 20 => (match body with | none => ["vqn-missing"] | some b => armsStruct "qn" 2 b)
+             | 21 => (match body with | none => ["vlt-missing"] | some b => armsStruct "lt" 2 b)
+             | 23 => (match body with | none => ["vdv-missing"] | some b => armsDv cfg fuel b)
+             | 24 => (match body with | none => ["vvar-missing"] | some b => "vvar-nested" :: armsVar cfg fuel b)
+             | _ => []))
+       | _ => [])
+  def armsDv (cfg : Cfg) : Nat → Json → List String
+    | 0, _ => ["dv-fuel"]
+    | fuel + 1, j =>
+      armsStruct "dv" 6 j ++
+      (match structFields [kValue, kStatus, kSourceTimestamp, kSourcePicoseconds, kServerTimestamp, kServerPicoseconds] j with
+       | some [v, st, sts, sp, vts, vp] =>
+         (match optPresent v with | none => ["dv-value-absent"] | some jv => "dv-value" :: armsVar cfg fuel jv) ++
+         (match optPresent st with | none => ["dv-status-absent"] | some j => "dv-status" :: armsStatus j) ++
+         (match optPresent sts with | none => ["dv-srcts-absent"] | some j => "dv-srcts" :: armsDtJ "dvts" (some j)) ++
+         (match optPresent vts with | none => ["dv-srvts-absent"] | some j => "dv-srvts" :: armsDtJ "dvts" (some j)) ++
+         armsIndex "dv-srcpico" 65535 sp ++ armsIndex "dv-srvpico" 65535 vp
+       | _ => [])
+end
+
+def armsF32Val (b : Nat) : List String :=
+  match classify32 b with
+  | .nan => ["ser-f32-nan"] | .inf false => ["ser-f32-inf"] | .inf true => ["ser-f32-neginf"]
+  | .fin _ m e => [if m = 0 then "ser-f32-zero" else if m = 2 ^ 24 - 1 ∧ e = 104 then "ser-f32-max" else if m < 2 ^ 23 then "ser-f32-subnormal"
+                   else if m = 2 ^ 23 then "ser-f32-power-of-two" else "ser-f32-normal"]
+
+def armsF64Val (b : Nat) : List String :=
+  match classify64 b with
+  | .nan => ["ser-f64-nan"] | .inf false => ["ser-f64-inf"] | .inf true => ["ser-f64-neginf"]
+  | .fin _ m _ => [if m = 0 then "ser-f64-zero" else if m < 2 ^ 52 then "ser-f64-subnormal" else "ser-f64-normal"]
+
+def armsOptS (pref : String) : Option (List Char) → String
+  | none => pref ++ "-null"
+  | some s => if s.isEmpty then pref ++ "-empty" else pref
+
+def armsIdentV (i : Ident) : String :=
+  match i with
+  | .numeric _ => "ser-id-numeric"
+  | .str s => armsOptS "ser-id-string" s
+  | .guid _ => "ser-id-guid"
+  | .bytes none => "ser-id-bytes-null"
+  | .bytes (some b) => if b.isEmpty then "ser-id-bytes-empty" else "ser-id-bytes"
+
+def armsDTv (d : DT) : List String :=
+  [if d.nanos % 1000000 = 0 then "ser-dt-ms" else "ser-dt-subms",
+   if d.secs = 0 then "ser-dt-epoch" else if d.secs = endSecs then "ser-dt-end" else "ser-dt-inside"]
+
+mutual
+  def armsVarV : Var → List String
+    | .empty => ["ser-empty"] | .bool _ => ["ser-bool"]
+    | .sbyte _ => ["ser-i8"] | .byte _ => ["ser-u8"] | .i16 _ => ["ser-i16"] | .u16 _ => ["ser-u16"]
+    | .i32 _ => ["ser-i32"] | .u32 _ => ["ser-u32"]
+    | .i64 v => [if v < 0 then "ser-i64-neg" else "ser-i64"] | .u64 _ => ["ser-u64"]
+    | .float b => armsF32Val b | .double b => armsF64Val b
+    | .string s => [armsOptS "ser-str" s] | .dateTime d => "ser-vdt" :: armsDTv d | .guid _ => ["ser-guid"]
+    | .byteString none => ["ser-bs-null"] | .byteString (some b) => [if b.isEmpty then "ser-bs-empty" else "ser-bs"]
+    | .xml s => [armsOptS "ser-xml" s]
+    | .nodeId n => ["ser-nid", if n.ns = 0 then "ser-ns0" else "ser-nsN", armsIdentV n.id]
+    | .expNodeId e => ["ser-xnid", if e.node.ns = 0 then "ser-ns0" else "ser-nsN", armsIdentV e.node.id,
+        armsOptS "ser-xnid-uri" e.uri, if e.svr = 0 then "ser-svr0" else "ser-svrN"]
+    | .status _ => ["ser-sc"] | .qname q => ["ser-qn", armsOptS "ser-qn-name" q.name]
+    | .ltext l => ["ser-lt", armsOptS "ser-lt-locale" l.locale, armsOptS "ser-lt-text" l.text]
+    | .dataValue d => "ser-vdv" :: armsDvV d
+    | .variant v => "ser-vvar" :: armsVarV v
+    | .array => ["ser-array"]
+  def armsDvV : DVal → List String
+    | .mk (some v) st sts sp vts vp => "ser-dv-value" :: armsVarV v ++ armsDvRest st sts sp vts vp
+    | .mk none st sts sp vts vp => "ser-dv-novalue" :: armsDvRest st sts sp vts vp
+  def armsDvRest (st : Option Nat) (sts : Option DT) (sp : Option Nat) (vts : Option DT) (vp : Option Nat) : List String :=
+    (if st.isSome then ["ser-dv-status"] else []) ++ (if sts.isSome then ["ser-dv-srcts"] else []) ++
+    (if sp.isSome then ["ser-dv-srcpico"] else []) ++ (if vts.isSome then ["ser-dv-srvts"] else []) ++
+    (if vp.isSome then ["ser-dv-srvpico"] else [])
+end
+
+def dedupS : List String → List String
+  | [] => []
+  | x :: r => if r.contains x then dedupS r else x :: dedupS r
+
+def armsJson (mask : Nat) (ty : String) (j : Json) : List String :=
+  match ty with
+  | "str" => armsUaStr "dstr" (some j)
+  | "bs" => [match j with | .null => "dbs-null" | .str s => if (b64Decode (utf8 s)).isSome then "dbs-ok" else "dbs-bad" | _ => "dbs-notstring"]
+  | "guid" => [match j with
+      | .str s => if (parseGuid (utf8 s)).isSome then s!"dguid-ok-len{(utf8 s).length}" else "dguid-bad"
+      | _ => "dguid-notstring"]
+  | "dt" => armsDtJ "ddt" (some j)
+  | "sc" => armsStatus j
+  | "nid" => armsNodeIdJ j
+  | "xnid" => armsExpJ j
+  | "qn" => armsStruct "qn" 2 j ++ (match structFields [kUri, kName] j with
+      | some [u, n] => armsIndex "qn-uri" 65535 u ++ armsUaStr "qn-name" n
+      | _ => [])
+  | "lt" => armsStruct "lt" 2 j ++ (match structFields [kLocale, kText] j with
+      | some [l, t] => armsUaStr "lt-locale" l ++ armsUaStr "lt-text" t
+      | _ => [])
+  | "dv" => armsDv (current mask) 8 j
+  | "var" => armsVar (current mask) 8 j
+  | _ => []
+
+def armsTyped (ty : String) (t : Tree) : List String :=
+  match ty with
+  | "str" => (optStrOf t).elim [] fun s => [armsOptS "ser-str" s]
+  | "bs" => (optBytesOf t).elim [] fun b => [match b with | none => "ser-bs-null" | some b => if b.isEmpty then "ser-bs-empty" else "ser-bs"]
+  | "guid" => ["ser-guid"]
+  | "dt" => (dtOf t).elim [] armsDTv
+  | "sc" => ["ser-sc"]
+  | "nid" => (nodeIdOf t).elim [] fun n => armsVarV (.nodeId n)
+  | "xnid" => (expOf t).elim [] fun e => armsVarV (.expNodeId e)
+  | "qn" => (qnOf t).elim [] fun q => armsVarV (.qname q)
+  | "lt" => (ltOf t).elim [] fun l => armsVarV (.ltext l)
+  | "dv" => (dvalOf t).elim [] armsDvV
+  | "var" => (varOf t).elim [] armsVarV
+  | _ => []
+
+def armsOf (mask : Nat) (toks : List String) : List String :=
+  match toks with
+  | ["rt", ty, v] => (treeOf v).elim [] (armsTyped ty)
+  | ["de", ty, v] => ((treeOf v).bind jsonOf).elim [] (armsJson mask ty)
+  | _ => []
+
+def dstep (s : DState) (toks : List String) : DState × String :=
+  let (s', r) := dstep0 s toks
+  let arms := dedupS (armsOf s.mask toks)
+  (s', if r = "bad-op" ∨ arms.isEmpty then r else r ++ " @@ " ++ ",".intercalate arms)
 
 def driver : Driver := { σ := DState, init := { mask := 0 }, step := dstep }
 
